@@ -216,10 +216,11 @@ def c02(tier, seed):
     # implementation: many schedules x driving styles x real-time factors of the same configuration and initial state,
     # every record must agree with the first one on the common prefix (clauses Deterministic*, Observed*)
     jobs = []
-    ng = 6 if quick else 16
+    ng = 7 if quick else 16
     nsch = 12 if quick else 60
     from .. import families
     fam2 = [families.early_arrival(random.Random(seed * 19 + k)) for k in range(1 if quick else 3)]
+    fam2 += [families.jitter_chain(random.Random(seed * 23 + k)) for k in range(1 if quick else 3)]
     for i, cfg in enumerate(_graphs(seed + 200, ng - len(fam2), tie_every=2, handmade=2) + fam2):
         rng = random.Random(seed + i)
         runs = []
@@ -363,7 +364,7 @@ def c13_async_jobs(tier, seed):
         for combo in (combos if i >= len(fam) else combos[:1]):
             for mr in ([None] if combo != combos[0] else [None, 1, 3]):
                 rec = dict(zip(flags, combo))
-                jobs.append(dict(kind="async", id=f"c13g{i}k{k}", cfg=cfg, seed=seed + i, gate=False, record=rec, max_records=mr,
+                jobs.append(dict(kind="async", id=f"c13g{i}k{k}", cfg=cfg, seed=seed + i, gate=False, record=rec, max_records=mr, vary_params=True,
                                  runs=[dict(history=hist)], group=f"c13g{i}", truncated=mr is not None, timeout=600))
                 k += 1
     return jobs
